@@ -44,8 +44,9 @@ PROVED = ['lcm_den_multiplier / lcm_den_least / lcm_den_invariant [P]: the lcm o
           'order_disc_trace_form [P]: for canonical f of degree n >= 1 (2n < 2^64) and an n x n basis b with get_mult_table b f = Done t (the module is closed under multiplication with an integral '
           'table), Order::discriminant returns det(Tr(w_i w_j)), the determinant of the integer trace-form matrix of the table: discriminant(min_poly) returns, the division is defined and '
           'assert!(value.is_integer()) holds (disc(f) det(B)^2 / lc^(2n-2) = det Tr, proved without roots: Euler trace formula + resultant of the multiplication matrix); '
-          'order_discriminant_trace_form [P]: the same for order_discriminant at any d with d lc f = (-1)^(n(n-1)/2) Res(f\', f)']
-NOT_PROVED = ['singly_gen_disc for a monic LINEAR f (degree 1, theta a rational constant) and for non-monic f (not a claim of the property); proved for monic f of degree >= 2',
+          'order_discriminant_trace_form [P]: the same for order_discriminant at any d with d lc f = (-1)^(n(n-1)/2) Res(f\', f)',
+          'singly_gen_disc_linear / singly_gen_disc_linear_wired [P] (seventh wave): for every LINEAR f = c1 x + c0 (c1 != 0, monic or not), theta = Algebraic::new(f) (the rational constant -c0/c1): singly_gen returns the order [[1]] = Z, discriminant_with_min_poly on it returns discf unchanged, discriminant(f) returns 1 with the exactness flag true, and the wired Order::discriminant returns 1 (both profiles, no panic)']
+NOT_PROVED = ['singly_gen_disc for non-monic f of degree >= 2 (not a claim of the property); proved for monic f of degree >= 2 and for every linear f',
               'nothing else of the property text; proved under other properties and used here: "get_mult_table b f = Done t" (the hypothesis of order_disc_trace_form) holds exactly when the full-rank '
               'basis b is closed under multiplication (C14 get_mult_table_iff), and non_monic_initial_order returns an order for every f of degree >= 1 (C06 non_monic_start_is_order, Dedekind)']
 ASSUMPTIONS = ['num::integer::lcm on BigInt taken as Z.lcm (non-negative)',
@@ -61,7 +62,7 @@ CLAIM = dict(
          'of Hnf.v and LinAlg.v) reproduces the routines statement by statement including assertions, the explicit panic of index, bounds checks on rank-deficient input '
          'and the usize arithmetic of the discriminant; it is tied to /repo by running the extracted model and impl_svc on the same constructor paths.',
     note='disc(min_poly) is computed by the model itself (Round2.order_disc = Order.order_discriminant at the value of Resultant.discriminant, the C05 model): the model side of op ord_disc '
-         'receives only the order and f. Statements are partial-correctness statements or equalities of outcomes, with totality proved separately for from_basis (exactly the non-singular bases) and union (full-rank input); the power-basis discriminant is proved for monic f of degree >= 2 (singly_gen_disc); '
+         'receives only the order and f. Statements are partial-correctness statements or equalities of outcomes, with totality proved separately for from_basis (exactly the non-singular bases) and union (full-rank input); the power-basis discriminant is proved for monic f of degree >= 2 (singly_gen_disc) and for every linear f (singly_gen_disc_linear: the order is Z, discriminant 1); '
          'the modules generated by the constructors are proved (trivial_order_module, non_monic_order_module, singly_gen_module) and also checked by independent Fraction oracles on every explored input.',
     ref='DESIGN.md section 4, C15')
 
